@@ -1,0 +1,25 @@
+//go:build verif
+
+package badger
+
+import "github.com/glebziz/fs_db/internal/utils/vhook"
+
+// Set passes a write inside a metadata transaction through the verification fault function.
+func (t transaction) Set(key []byte, val []byte) error {
+	vhook.AtID("badger.txn.set", string(key))
+	if err := vhook.OpFault("badger.txn.set", string(key)); err != nil {
+		return err
+	}
+
+	return t.Txn.Set(key, val)
+}
+
+// Delete passes a removal inside a metadata transaction through the verification fault function.
+func (t transaction) Delete(key []byte) error {
+	vhook.AtID("badger.txn.delete", string(key))
+	if err := vhook.OpFault("badger.txn.delete", string(key)); err != nil {
+		return err
+	}
+
+	return t.Txn.Delete(key)
+}
